@@ -76,7 +76,13 @@ func c10InsDel(c c02Case) *Violation {
 		if len(gg) != 1 {
 			return viol("presence", "%s: host feature %s present %d times", what, f.label(), len(gg))
 		}
-		if v := compareFeature(fmt.Sprintf("%s host %s %s", what, f.label(), f.Loc), gg[0], f, den(f.Loc), markers(f.Loc), c.HostLen); v != nil {
+		siteCheck = nil
+		if !hasResidue(den(f.Loc)) {
+			siteCheck = expectSites(den(f.Loc)) // a site-only feature comes back to where it was
+		}
+		v := compareFeature(fmt.Sprintf("%s host %s %s", what, f.label(), f.Loc), gg[0], f, den(f.Loc), markers(f.Loc), c.HostLen)
+		siteCheck = nil
+		if v != nil {
 			return v
 		}
 		// the restored location must also survive its own text form (a re-merged join prints and re-parses to the same meaning)
